@@ -328,7 +328,7 @@ def run_shard(spec, tier, seed, budget_s):
     sh = Shard(ID, budget_s)
     i = spec['shard']
     rng = random.Random(f'{seed}-c10-{i}')
-    target = {'quick': 150, 'thorough': 2500}[tier]
+    target = {'quick': 300, 'thorough': 3000}[tier]
     k = 0
     with monitors.WriteTracer() as tracer:
         while k < target and not sh.out_of_time():
